@@ -1,4 +1,15 @@
-/- dsmodel_quantiles: model driver stub (filled in when the family is built). -/
-def main (_args : List String) : IO UInt32 := do
-  IO.eprintln "dsmodel_quantiles: not built yet"
-  return 2
+/- dsmodel_quantiles: `quantiles` = histories over classic quantiles sketches (C07 / C08 parts "quantiles"). -/
+import DSModel.Quantiles.Driver
+import DSModel.DriverLoop
+import DSGen.Quantiles
+open DS
+
+def quantilesTunables : Quantiles.Tunables :=
+  { lim := { minK := DSGen.quantiles_MIN_K, maxK := DSGen.quantiles_MAX_K },
+    errPmfNum := DSGen.quantiles_RANK_ERR_PMF_NUM, errPmfPow := DSGen.quantiles_RANK_ERR_PMF_POW,
+    errCdfNum := DSGen.quantiles_RANK_ERR_CDF_NUM, errCdfPow := DSGen.quantiles_RANK_ERR_CDF_POW }
+
+def main (args : List String) : IO UInt32 := do
+  match args with
+  | ["quantiles"] => runDriver Quantiles.Top.unset (Quantiles.topStep quantilesTunables)
+  | _ => IO.eprintln "usage: dsmodel_quantiles quantiles"; return 2
